@@ -203,6 +203,14 @@ func genJWT(r *hv.Rng) (string, hv.Val) {
 			}
 			claims[names[j]] = v
 			cl[j] = [2]int64{1, v}
+			switch r.Intn(24) {
+			case 0: // the number 0: jwt-go treats it as "not set"
+				claims[names[j]] = 0
+				cl[j] = [2]int64{1, 0}
+			case 1: // a string instead of a NumericDate: ignored by jwt-go
+				claims[names[j]] = fmt.Sprint(v)
+				cl[j] = [2]int64{2, 0}
+			}
 		}
 	}
 	hb, _ := json.Marshal(hdr)
